@@ -1,7 +1,7 @@
 /-
 C20 (source tie) — the hand-written model of the provider chain `Authorizer::authenticate_request`
 (`KM.Http.authenticate`, Http/Auth.lean) equals the definition that the translator `pure_fns`
-regenerates from `/repo/src/daemon/http/auth/authorizer.rs` on every run (`Generated/PureFns.lean`,
+regenerates from `/repo/src/daemon/http/auth/authorizer.rs` on every run (`Generated/PureFnsC20.lean`,
 `KM.Gen.Authorizer.authenticate_request`).
 
 `authenticates_iff`, `refused_everywhere`, `wrong_credentials_refused` (Props/C20.lean, Props/C13.lean)
@@ -19,7 +19,7 @@ the admin-token provider itself (`Authorizer::new`, modelled by `legacyProvider`
 state the primary provider returns is outside the generated body (`authenticate_state` says when it is
 consulted at all).
 -/
-import KrillModel.Generated.PureFns
+import KrillModel.Generated.PureFnsC20
 import KrillModel.Http.Auth
 namespace KM.Props.C20Src
 open KM.Http
